@@ -157,6 +157,24 @@ func init() {
 					}
 					signed := append([]byte(nil), b.Raw...)
 					report(signed, nil, "fresh")
+					if withMI {
+						// a failed integrity attempt (wrong key) on the same Message must not disturb the fingerprint check
+						d := &stun.Message{Raw: exactSlice(signed, 40)}
+						if d.Decode() == nil {
+							_ = stun.NewShortTermIntegrity("not the key").Check(d)
+							c.Eval(1)
+							if err := stun.Fingerprint.Check(d); err != nil {
+								c.Violation("fingerprint-fails-after-integrity-attempt", fmt.Sprintf("Fingerprint.Check = %v on a valid fingerprinted message after MessageIntegrity.Check with a wrong key on the same Message", err), c05Case{Hex: hex.EncodeToString(signed), Orig: "mi-then-fp"})
+								bad = true
+							}
+							_ = stun.NewShortTermIntegrity("secret").Check(d)
+							if err := stun.Fingerprint.Check(d); err != nil && !bad {
+								c.Violation("fingerprint-fails-after-integrity-attempt", fmt.Sprintf("Fingerprint.Check = %v after a successful MessageIntegrity.Check", err), c05Case{Hex: hex.EncodeToString(signed), Orig: "mi-then-fp"})
+								bad = true
+							}
+							c.Outcome("fresh:after-integrity-attempts")
+						}
+					}
 					if len(c.Res.Samples) < 2 {
 						c.Sample(map[string]interface{}{"fingerprinted_message_hex": hex.EncodeToString(signed), "bits": len(signed) * 8})
 					}
@@ -255,6 +273,17 @@ func init() {
 											raw[off], raw[off+1], raw[off+2], raw[off+3] = byte(v>>24), byte(v>>16), byte(v>>8), byte(v)
 										}
 									}
+									if second && good {
+										// the LAST fingerprint carries the right value while the first does not: the first one decides
+										pm, _ := ref.Parse(raw)
+										if pm != nil {
+											last := pm.Attrs[len(pm.Attrs)-1]
+											if last.Type == 0x8028 && last.Len == 4 && last.Off >= len(raw)-8 && pos != len(pm.Attrs)-1 {
+												v := ref.Fingerprint(raw[:len(raw)-8])
+												raw[last.Off], raw[last.Off+1], raw[last.Off+2], raw[last.Off+3] = byte(v>>24), byte(v>>16), byte(v>>8), byte(v)
+											}
+										}
+									}
 									c.DistinctBytes(raw)
 									report(raw, nil, "crafted")
 								}
@@ -276,6 +305,19 @@ func init() {
 				c.Fail("%v", err)
 			}
 			raw, _ := hex.DecodeString(k.Hex)
+			if k.Orig == "mi-then-fp" {
+				d := &stun.Message{Raw: exactSlice(raw, 40)}
+				if d.Decode() == nil {
+					_ = stun.NewShortTermIntegrity("not the key").Check(d)
+					err1 := stun.Fingerprint.Check(d)
+					_ = stun.NewShortTermIntegrity("secret").Check(d)
+					err2 := stun.Fingerprint.Check(d)
+					if err1 != nil || err2 != nil {
+						c.Violation("fingerprint-fails-after-integrity-attempt", fmt.Sprintf("%v / %v", err1, err2), k)
+					}
+				}
+				return
+			}
 			if _, has, dec := refFingerprint(raw); dec && has == 0 && k.Orig == "" {
 				// an AddTo case: message before fingerprinting
 				b := &stun.Message{Raw: exactSlice(raw, 32)}
